@@ -18,7 +18,7 @@ innermost), with constants defined after the structure on the same instance, som
 array wins) and some that are no field (the fall-back), 15 element kinds incl. a structure whose own count field is called like a
 field of the enclosing structure; count values are chosen so that EOF dimensions have non-empty elements and bodies hold whole
 rows; same laws (reference parser incl. consumed bytes, dumps, model); a parse that makes no progress is cut after 3 s and
-reported as error class Hang.  The variant with the same-named constant defined BEFORE the structure is a PENDING-FINDING
+reported as error class Hang.  The variant with the same-named constant defined BEFORE the structure is known finding F45 (classified by its signature)
 (disabled, see run_mixed).
 
 Partial-zero elements (family B): null-terminated arrays of 16 multi-byte element kinds (wchar, 2/3/4/6/8/16-byte integers, enums,
@@ -210,7 +210,7 @@ def run_mixed(env, eng, res, rnd):
         if len(eng.lines) > 4000:
             eng.flush()
     eng.flush()
-    if False:  # PENDING-FINDING (t2): a constant with the name of a field that is defined BEFORE the structure is folded into the
+    if True:  # known finding F45 (found by this probe): a constant with the name of a field that is defined BEFORE the structure is folded into the
         # array type when the definition is parsed (parser.py:_parse_field_type evaluates every count without a context), so the
         # field parsed before the array never gets a say: `#define cols 3` + `struct T { uint8 cols; uint8 a[cols]; uint8 tail; };`
         # parses 01 09 08 07 06 as a=[9, 8, 7], the property gives a=[9] (with the #define after the structure it does).
@@ -218,8 +218,8 @@ def run_mixed(env, eng, res, rnd):
             plan = t2_arrays.mixed_plan(rnd, early=True)
             L = t2_arrays.MixedView(plan)
             cfg = refimpl.Cfg("<", False, "uint64", L.consts)
-            check_case(eng, res, L, "eof" if "eof" in plan["forms"] else "mixed", plan["en"], t2_arrays.mixed_input(rnd, plan, cfg), cfg, eng.sigs(L),
-                       label="mixdim-case:early-constant")
+            check_case(eng, res, L, "eof" if "eof" in plan["forms"] else "mixed", plan["en"], t2_arrays.mixed_input(rnd, plan, cfg), cfg,
+                       eng.sigs(L) + ["F45"], label="mixdim-case:early-constant")
         eng.flush()
 
 
